@@ -68,7 +68,9 @@ def build_gofacts():
 
 def gofacts(areas):
     """Regenerate Generated/<area>.lean for the given areas; returns {area: status}."""
-    if not os.path.exists(os.path.join(BIN, "gofacts")):
+    gb = os.path.join(BIN, "gofacts")
+    srcs = [os.path.join(VERIF, "gofacts", f) for f in os.listdir(os.path.join(VERIF, "gofacts"))]
+    if not os.path.exists(gb) or any(os.path.getmtime(f) > os.path.getmtime(gb) for f in srcs):
         build_gofacts()
     os.makedirs(GEN, exist_ok=True)
     with Lock("lean"):
